@@ -109,7 +109,7 @@ def rule_kaufman_col(F, ev, R, config, rule="R-KAUFMAN-COL"):
               "column normal form %s" % nfmod.show(n, short)[:300] if okn else
               "Jacobian column has normal form  %s  but the Kaufman column is  %s" % (nfmod.show(n, short)[:400], nfmod.show(exp, short)[:300]),
               t.get("span"))
-    R.floor(rule, config, 5 if config == "default" else 10, "five clauses per jacobian() impl")
+    R.floor(rule, config, 5 if not config.endswith("parallel") else 10, "five clauses per jacobian() impl")
 
 
 # --------------------------------------------------------------------------- #
@@ -139,18 +139,53 @@ def build_body(F):
     return bs[0]
 
 
-def build_ok_problem(F, ev, b):
+def build_ok_problem(F, ev, b, env=None):
     ev.fresh_ctx()
-    v = ev.ret_val(Env(b))
+    v = ev.ret_val(env if env is not None else Env(b))
     alts = v[1] if v[0] == "phi" else (v,)
     oks = [a for a in alts if a[0] == "agg" and a[2] == "Ok"]
     return oks, alts
+
+
+def weight_variants(F):
+    return [v["name"] for v in F.adts[ADT_WEIGHTS]["variants"]]
+
+
+def weighted_by(d, W, M, variant):
+    """is `d` the matrix M row-scaled by the weights W, given that W has the enum variant `variant`:
+    the operator `&W * M` itself, or what it does for that variant (R-ROW-SCALING decides the operator:
+    identity for Unit, `&DiagMatrix * M` of the payload for Diagonal)"""
+    wp = wmul_parts(d)
+    if W is not None and wp is not None and wp[0] == W and wp[1] == M:
+        return True
+    if variant == "Unit":
+        return d == M
+    if variant == "Diagonal":
+        return (d[0] == "call" and d[1] == "std::ops::Mul::mul" and d[2] == ADT_DIAG and len(d[3]) == 2 and d[3][1] == M
+                and d[3][0][0] == "payload" and (W is None or d[3][0][1] == W) and d[3][0][2] == "Diagonal")
+    return False
 
 
 def rule_data_weight_once(F, ev, R, config, rule="R-DATA-WEIGHT-ONCE"):
     pr = problem_roles(F)
     br = builder_roles(F)
     b = build_body(F)
+    me = ("param", b.key, 1)
+    Wb = ("field", me, br["weights"])
+    Yb = ("payload", ("field", me, br["data"]), "ok", "0")
+    # the stored data, decided once per variant of the weights (a `match` on the weights inside build() or in a
+    # helper takes only that variant's arm): W·Y through the operator, or what the operator does for the variant
+    okw, bad = True, None
+    for var in weight_variants(F):
+        with ev.assuming(Wb, var):
+            oks_v, _ = build_ok_problem(F, ev, b, ev.inline_env(b, {}, 0))
+        if len(oks_v) != 1:
+            okw, bad = False, "%d Ok alternatives for %s weights" % (len(oks_v), var)
+            continue
+        pv, _ = strip_mut(oks_v[0][3][0][1])
+        dv = dict(pv[3]).get(pr["data"]) if pv[0] == "agg" and pv[1] == ADT_PROBLEM else None
+        if dv is None or not weighted_by(dv, Wb, Yb, var):
+            okw, bad = False, "for %s weights the stored data are `%s`" % (var, short(dv)[:160] if dv else "?")
     oks, alts = build_ok_problem(F, ev, b)
     if len(oks) != 1:
         R.bad(rule, config, b.key, "ok-value", "build() has %d Ok alternatives (undetermined)" % len(oks), b.j["span"])
@@ -160,13 +195,8 @@ def rule_data_weight_once(F, ev, R, config, rule="R-DATA-WEIGHT-ONCE"):
         R.bad(rule, config, b.key, "ok-value", "Ok payload is not a LevMarProblem aggregate: %s" % short(p)[:160], b.j["span"])
         return
     f = dict(p[3])
-    me = ("param", b.key, 1)
-    Wb = ("field", me, br["weights"])
-    Yb = ("payload", ("field", me, br["data"]), "ok", "0")
-    wp = wmul_parts(f[pr["data"]])
-    ok = wp is not None and wp[0] == Wb and wp[1] == Yb
-    R.add(rule, config, b.key, "Y_w=W·Y-once", ok,
-          "" if ok else "stored data are `%s`, expected exactly one application of the builder's weights to the supplied observations" % short(f[pr["data"]])[:200], b.j["span"])
+    R.add(rule, config, b.key, "Y_w=W·Y-once", okw,
+          "" if okw else "%s, expected exactly one application of the builder's weights to the supplied observations" % bad, b.j["span"])
     ok = f[pr["weights"]] == Wb
     R.add(rule, config, b.key, "weights-role=builder-weights", ok,
           "" if ok else "the problem's weights `%s` are not the weights used on the data" % short(f[pr["weights"]])[:160], b.j["span"])
@@ -209,17 +239,19 @@ def rule_row_scaling(F, ev_unused, R, config, rule="R-ROW-SCALING"):
         R.bad(rule, config, "-", "anchor-missing", "weight multiplication operators: %d/%d" % (len(wm), len(dm)))
         return
     b = wm[0]
-    v = ev.ret_val(Env(b))
-    alts = set(v[1] if v[0] == "phi" else (v,))
     rhs = ("param", b.key, 2)
-    ident = rhs in alts
-    diag = [a for a in alts if a[0] == "call" and a[1] == "std::ops::Mul::mul" and a[2] == ADT_DIAG and a[3][1] == rhs
-            and a[3][0][0] == "payload" and a[3][0][2] == "Diagonal" and a[3][0][1] == ("param", b.key, 1)]
-    ok = ident and len(diag) == 1 and len(alts) == 2
+    me = ("param", b.key, 1)
+    # decided once per variant (the operator's `match`, wherever it sits — also behind an accessor such as
+    # `as_diagonal()` — takes only that variant's arm): exactly M for Unit, exactly `&payload * M` for Diagonal
+    ok, got = True, {}
+    for var in weight_variants(F):
+        with ev.assuming(me, var):
+            v = ev.ret_val(ev.inline_env(b, {}, 0))
+        got[var] = v
+        if not weighted_by(v, None, rhs, var) or (var == "Diagonal" and v[3][0][1] != me):
+            ok = False
     R.add(rule, config, b.key, "unit=identity,diagonal=rowscale", ok,
-          "" if ok else "`&Weights * M` evaluates to %s; expected M for Unit and `&DiagMatrix * M` for Diagonal" % short(v)[:200], b.j["span"])
-    # Unit arm really is the Unit variant: the identity alternative is reached on the Unit edge
-    # (the Diagonal payload can only be read on the Diagonal edge, so the other arm is Unit)
+          "" if ok else "`&Weights * M` evaluates to %s; expected M for Unit and `&DiagMatrix * M` for Diagonal" % {k: short(x)[:90] for k, x in got.items()}, b.j["span"])
     d = dm[0]
     env = Env(d)
     ev2 = Eval(F)
@@ -367,7 +399,7 @@ def rule_weight_sites(F, ev, R, config, rule="R-WEIGHT-SITES"):
     for k, bi in sorted(all_sites - covered):
         R.bad(rule, config, k, "weights@bb%d" % bi, "this weight multiplication is not reached from any entry function through modelled calls (undetermined)",
               F.bodies[k].blocks[bi]["term"].get("span"))
-    R.floor(rule, config, 4 if config == "default" else 5, "build 1, basis matrix >= 1, derivative 1/2, statistics 2 (a shared helper may serve both flavours)")
+    R.floor(rule, config, 4 if not config.endswith("parallel") else 5, "build 1, basis matrix >= 1, derivative 1/2, statistics 2 (a shared helper may serve both flavours)")
 
 
 def rule_weight_uses(F, ev, R, config, rule="R-WEIGHT-USES"):
@@ -427,6 +459,9 @@ def rule_weight_uses(F, ev, R, config, rule="R-WEIGHT-USES"):
             ok = False
             if e.cid == "std::ops::Mul::mul" and e.head == ADT_WEIGHTS and e.args and e.args[0] in Ws and not direct(e.args[1]):
                 ok = True
+            elif e.cid == "std::ops::Mul::mul" and e.head == ADT_DIAG and len(e.args) == 2 and e.args[0][0] == "payload" and e.args[0][1] in Ws \
+                    and e.args[0][2] == "Diagonal" and not direct(e.args[1]):
+                ok = True   # the row-scaling operator of the diagonal payload itself (what `&Weights * M` does for Diagonal)
             elif e.cid in IDENTITY or nm in ("clone", "borrow", "as_ref", "deref", "to_owned", "fmt", "clone_from") or "fmt::" in e.cid:
                 ok = True
             elif nm in SIZE:
@@ -511,7 +546,7 @@ def rule_who_writes(F, ev, R, config, rule="R-WHO-WRITES"):
                           (im.get("self_adt") == ADT_PBUILDER)
                 R.add(rule, config, b.key, "constructs-problem", allowed,
                       "" if allowed else "a LevMarProblem is constructed outside build()/into_*/Clone", s.get("span"))
-    R.floor(rule, config, 9 if config == "default" else 11, "5+3 private fields, cache writes, model borrow, constructors")
+    R.floor(rule, config, 9 if not config.endswith("parallel") else 11, "5+3 private fields, cache writes, model borrow, constructors")
 
 
 def rule_no_history(F, ev, R, config, rule="R-NO-HISTORY"):
@@ -560,7 +595,7 @@ def rule_no_history(F, ev, R, config, rule="R-NO-HISTORY"):
         okp = b.must_pass(0, b.exits(), wblocks)
         R.add(rule, config, b.key, "every-path-rewrites-cache@" + fl, okp,
               "" if okp else "a path through set_params returns without replacing the cache: stale state survives", b.j["span"])
-    R.floor(rule, config, 14 if config == "default" else 16, "field types + set_params impls")
+    R.floor(rule, config, 14 if not config.endswith("parallel") else 16, "field types + set_params impls")
 
 
 def rule_def_init(F, ev, R, config, rule="R-DEF-INIT"):
@@ -997,7 +1032,7 @@ def rule_ctor_siblings(F, ev, R, config, rule="R-CTOR-SIBLINGS"):
             ok = (f[br["data"]] == ("none",) and f[br["eps"]] == ("none",) and f[br["model"]] == ("param", b.key, 1)
                   and f[br["weights"]] == ("agg", ADT_WEIGHTS, "Unit", ()))
         R.add(rule, config, b.key, "empty-builder", ok, "" if ok else "constructor returns `%s`, expected no data, no epsilon, unit weights, the given model" % short(v)[:200], b.j["span"])
-    R.floor(rule, config, 2 if config == "default" else 4, "new/mrhs (+ parallel twins)")
+    R.floor(rule, config, 2 if not config.endswith("parallel") else 4, "new/mrhs (+ parallel twins)")
 
 
 def rule_no_const_param_use(F, ev, R, config, rule="R-NO-CONST-PARAM-USE"):
@@ -1115,9 +1150,8 @@ def rule_problem_build_table(F, ev, R, config, rule="R-PROBLEM-BUILD-TABLE"):
     """build(): each LevMarBuilderError only under its own condition, Ok only after all
     validations — wherever the checks live (build() itself or private helpers it calls)"""
     br = builder_roles(F)
-    b = build_body(F)
-    env = Env(b)
-    me = ("param", b.key, 1)
+    b0 = build_body(F)
+    me = ("param", b0.key, 1)
     Yopt = ("field", me, br["data"])
     Y = ("payload", Yopt, "ok", "0")
     XL = lambda x: is_call(x, TRAIT_MODEL + "::output_len") and strip_mut(x[3][0])[0] == ("field", me, br["model"])
@@ -1140,93 +1174,131 @@ def rule_problem_build_table(F, ev, R, config, rule="R-PROBLEM-BUILD-TABLE"):
             return ("empty", not neg)
         if t[0] != "discr" and contains(t, lambda x: x[0] == "payload" and x[2] == "Diagonal") and contains(t, lambda x: x == ("field", me, br["weights"])) and \
                 contains(t, lambda x: (x[0] == "bin" and x[1] in ("Eq", "Ne")) or (x[0] == "call" and x[1].startswith("std::cmp::PartialEq"))):
-            return ("weights_fit", neg)   # the size test (a comparison of the diagonal's length) is true when the weights fit
+            if r and r[0] in ("Eq", "Ne"):
+                return ("weights_fit", r[0] == "Ne")   # a direct comparison of the diagonal's length: `!=` is the defect
+            return ("weights_fit", neg)   # the size test (a bool built from such a comparison) is true when the weights fit
         return None
 
-    pairs = inlined_envs(ev, env)
-    found = {}
-    err_results = {}
-    for body, e2 in pairs:
-        g = Guards(ev, body, e2)
-        atoms = {}
-        for sw in g.switches:
-            c = classify(sw["term"])
-            if c:
-                atoms.setdefault(c[0], []).append((sw, c[1]))
-                found[c[0]] = sw
-        def defect_edges(name):
-            es = []
-            for sw, defect_truth in atoms.get(name, []):
-                es.append(g.bool_edges(sw, defect_truth))
-            return es
-        spec = {"ZeroLengthVector": ["zero", "empty"], "InvalidLengthOfData": ["rows"], "InvalidLengthOfWeights": ["weights_fit"]}
-        for bi, si, s in body.stmts():
-            if s["k"] == "assign" and s["rv"]["k"] == "agg" and s["rv"].get("adt", "").endswith("LevMarBuilderError"):
-                v = s["rv"]["variant"]
-                if v in spec:
-                    es = []
-                    for a in spec[v]:
-                        es.extend(defect_edges(a))
-                    ok = bool(es) and g.holds_on_all_paths_to(bi, es)
-                    err_results.setdefault(v, []).append((ok, body, s))
-                elif v == "YDataMissing":
-                    cons = consumers(body, s["place"]["l"])
-                    ok = False
-                    if len(cons) == 1 and cons[0]["kind"] == "call" and cons[0]["cid"].rsplit("::", 1)[-1] in ("ok_or",):
-                        recv = ev.operand(e2, cons[0]["term"]["args"][0], (cons[0]["block"], None))
-                        ok = recv == Yopt
-                    else:
-                        # match form: the site lies on the None edge of a test of the data option
+    Wterm = ("field", me, br["weights"])
+    results = {}
+    order = []
+
+    def analyse(var, env, b):
+        def rec(fnkey, inst, ok, msg="", span=None):
+            if var == "Unit" and ("weights_fit" in inst or inst == "weights-length-vs-rows"):
+                return   # nothing to validate for unit weights (that they are never rejected is checked below)
+            k = (fnkey, inst)
+            if k not in results:
+                results[k] = [True, "", span]
+                order.append(k)
+            if not ok and results[k][0]:
+                results[k] = [False, "for %s weights: %s" % (var, msg), span]
+
+        def recbad(fnkey, inst, msg, span=None):
+            if var == "Unit" and inst == "err-only-under-its-condition:InvalidLengthOfWeights" and "never produced" in msg:
+                return
+            rec(fnkey, inst, False, msg, span)
+        pairs = inlined_envs(ev, env)
+        found = {}
+        err_results = {}
+        for body, e2 in pairs:
+            g = Guards(ev, body, e2)
+            atoms = {}
+            for sw in g.switches:
+                c = classify(sw["term"])
+                if c:
+                    atoms.setdefault(c[0], []).append((sw, c[1]))
+                    found[c[0]] = sw
+            def defect_edges(name):
+                es = []
+                for sw, defect_truth in atoms.get(name, []):
+                    es.append(g.bool_edges(sw, defect_truth))
+                return es
+            spec = {"ZeroLengthVector": ["zero", "empty"], "InvalidLengthOfData": ["rows"], "InvalidLengthOfWeights": ["weights_fit"]}
+            for bi, si, s in body.stmts():
+                if s["k"] == "assign" and s["rv"]["k"] == "agg" and s["rv"].get("adt", "").endswith("LevMarBuilderError"):
+                    v = s["rv"]["variant"]
+                    if v in spec:
                         es = []
-                        for sw in g.switches:
-                            if sw["term"][0] == "discr" and sw["term"][1] == Yopt:
-                                yes, no = variant_edge(body, sw["block"], "None")
-                                if yes:
-                                    es.append(yes)
+                        for a in spec[v]:
+                            es.extend(defect_edges(a))
                         ok = bool(es) and g.holds_on_all_paths_to(bi, es)
-                    err_results.setdefault(v, []).append((ok, body, s))
-    for v in ("YDataMissing", "ZeroLengthVector", "InvalidLengthOfData", "InvalidLengthOfWeights"):
-        if v not in err_results:
-            R.bad(rule, config, b.key, "err-only-under-its-condition:" + v, "error variant %s is never produced: the violated requirement is not reported" % v, b.j["span"])
-        for ok, body, s in err_results.get(v, []):
-            R.add(rule, config, body.key, "err-only-under-its-condition:" + v, ok,
-                  "" if ok else "Err(%s) can be returned although its requirement is not violated" % v, s.get("span"))
-    # the weight length must be compared with the number of *rows* of the observations
-    if "weights_fit" in found:
-        wt = found["weights_fit"]["term"]
-        cmp_ok = False
-        seen = []
-        for x in walk(wt):
-            if x[0] == "bin" and x[1] in ("Eq", "Ne"):
-                for side in (x[2], x[3]):
-                    seen.append(side)
-                    if NR(side) or (side[0] == "call" and side[1].endswith("Matrix::nrows") and strip_mut(side[3][0])[0] == Y):
-                        cmp_ok = True
-        R.add(rule, config, b.key, "weights-length-vs-rows", cmp_ok,
-              "" if cmp_ok else "the weight length is validated against `%s`, not against the number of rows of the observations: "
-              "for several right-hand sides a wrong weight vector passes and the row scaling panics" % [short(x)[:50] for x in seen][:4], b.j["span"])
-    # Ok dominated by all validations (conditions collected interprocedurally)
-    g = Guards(ev, b, env)
-    ok_sites = [(bi, s) for bi, si, s in b.stmts() if s["k"] == "assign" and s["rv"]["k"] == "agg" and s["rv"].get("variant") == "Ok" and s["place"]["l"] == 0]
-    if not ok_sites:
-        R.bad(rule, config, b.key, "ok-site", "build() never returns Ok", b.j["span"])
-    for bi, s in ok_sites:
-        rels, raw = g.relations_at(bi)
-        have = {"zero": False, "empty": False, "rows": False, "weights_fit": False, "observations-present": False}
-        conds = [(t, tr) for t, tr, sw in raw if isinstance(tr, bool)]
-        for r in rels:
-            conds.append((("bin", r[0], r[1], r[2]), True))
-        for t, tr in conds:
-            c = classify(t)
-            if c and c[1] != tr:
-                have[c[0]] = True
-        for t, tr, sw in raw:
-            if t[0] == "discr" and not isinstance(tr, bool):
-                inner = t[1][1] if t[1][0] == "cf" else t[1]
-                if contains(inner, lambda x: x == Yopt):
-                    have["observations-present"] = True
-        for k2, v in have.items():
-            R.add(rule, config, b.key, "ok-needs:%s" % k2, v, "" if v else "Ok(problem) is reachable without the check `%s`" % k2, s.get("span"))
+                        err_results.setdefault(v, []).append((ok, body, s))
+                    elif v == "YDataMissing":
+                        cons = consumers(body, s["place"]["l"])
+                        ok = False
+                        if len(cons) == 1 and cons[0]["kind"] == "call" and cons[0]["cid"].rsplit("::", 1)[-1] in ("ok_or",):
+                            recv = ev.operand(e2, cons[0]["term"]["args"][0], (cons[0]["block"], None))
+                            ok = recv == Yopt
+                        else:
+                            # match form: the site lies on the None edge of a test of the data option
+                            es = []
+                            for sw in g.switches:
+                                if sw["term"][0] == "discr" and sw["term"][1] == Yopt:
+                                    yes, no = variant_edge(body, sw["block"], "None")
+                                    if yes:
+                                        es.append(yes)
+                            ok = bool(es) and g.holds_on_all_paths_to(bi, es)
+                        err_results.setdefault(v, []).append((ok, body, s))
+        for v in ("YDataMissing", "ZeroLengthVector", "InvalidLengthOfData", "InvalidLengthOfWeights"):
+            if v not in err_results:
+                recbad(b.key, "err-only-under-its-condition:" + v, "error variant %s is never produced: the violated requirement is not reported" % v, b.j["span"])
+            for ok, body, s in err_results.get(v, []):
+                rec(body.key, "err-only-under-its-condition:" + v, ok,
+                      "" if ok else "Err(%s) can be returned although its requirement is not violated" % v, s.get("span"))
+        # the weight length must be compared with the number of *rows* of the observations
+        if "weights_fit" in found:
+            wt = found["weights_fit"]["term"]
+            cmp_ok = False
+            seen = []
+            for x in walk(wt):
+                if x[0] == "bin" and x[1] in ("Eq", "Ne"):
+                    for side in (x[2], x[3]):
+                        seen.append(side)
+                        if NR(side) or (side[0] == "call" and side[1].endswith("Matrix::nrows") and strip_mut(side[3][0])[0] == Y):
+                            cmp_ok = True
+            rec(b.key, "weights-length-vs-rows", cmp_ok,
+                  "" if cmp_ok else "the weight length is validated against `%s`, not against the number of rows of the observations: "
+                  "for several right-hand sides a wrong weight vector passes and the row scaling panics" % [short(x)[:50] for x in seen][:4], b.j["span"])
+        # Ok dominated by all validations (conditions collected interprocedurally)
+        g = Guards(ev, b, env)
+        ok_sites = [(bi, s) for bi, si, s in b.stmts() if s["k"] == "assign" and s["rv"]["k"] == "agg" and s["rv"].get("variant") == "Ok" and s["place"]["l"] == 0]
+        if not ok_sites:
+            recbad(b.key, "ok-site", "build() never returns Ok", b.j["span"])
+        for bi, s in ok_sites:
+            rels, raw = g.relations_at(bi)
+            have = {"zero": False, "empty": False, "rows": False, "weights_fit": False, "observations-present": False}
+            conds = [(t, tr) for t, tr, sw in raw if isinstance(tr, bool)]
+            for r in rels:
+                conds.append((("bin", r[0], r[1], r[2]), True))
+            for t, tr in conds:
+                c = classify(t)
+                if c and c[1] != tr:
+                    have[c[0]] = True
+            for t, tr, sw in raw:
+                if t[0] == "discr" and not isinstance(tr, bool):
+                    inner = t[1][1] if t[1][0] == "cf" else t[1]
+                    if contains(inner, lambda x: x == Yopt):
+                        have["observations-present"] = True
+            for k2, v in have.items():
+                rec(b.key, "ok-needs:%s" % k2, v, "" if v else "Ok(problem) is reachable without the check `%s`" % k2, s.get("span"))
+
+    for var in weight_variants(F):
+        with ev.assuming(Wterm, var):
+            env_v = ev.inline_env(b0, {}, 0)
+            analyse(var, env_v, env_v.body)
+            if var == "Unit":
+                # unit weights fit every data length: the weights error must not be constructible for them
+                live = env_v.body.live_blocks()
+                sites = [st for bi, si, st in env_v.body.stmts() if bi in live and st["k"] == "assign" and st["rv"]["k"] == "agg"
+                         and st["rv"].get("adt", "").endswith("LevMarBuilderError") and st["rv"].get("variant") == "InvalidLengthOfWeights"]
+                k = (b0.key, "unit-weights-never-rejected")
+                results[k] = [not sites, "" if not sites else "Err(InvalidLengthOfWeights) can be returned for unit weights", sites[0].get("span") if sites else b0.j["span"]]
+                order.append(k)
+    for k in order:
+        ok, msg, span = results[k]
+        R.add(rule, config, k[0], k[1], ok, msg, span)
+    b = b0
     # is_size_correct_for_data_length table
     for sb in inherent_methods(F, ADT_WEIGHTS, "is_size_correct_for_data_length"):
         ev.fresh_ctx()
